@@ -255,7 +255,15 @@ def oracle(ctx, kind, p):
             if k >= 2:
                 s = (S.insert_at_token_boundary(rng, s, rng.choice([1, 1, 2])) if p['i'] % 8 >= 6
                      else S.corrupt_text(rng, s))
-            if rng.random() < 0.3:
+            if rng.random() < 0.15:
+                # a comment on the same line as the end of the previous graph (whose line may itself
+                # contain '::'), then the next graph: the comment belongs to the next graph as written
+                one = penman.format(penman.Tree(t), indent=None)
+                t2 = T.rand_tree(rng, n_nodes=rng.choice([1, 2]))
+                s = (one + rng.choice([' ', '  ', '']) + '#' + rng.choice([' first', ' ::k v', '::a 1 ::b', ' x::y'])
+                     + '\n' + penman.format(penman.Tree(t2), indent=rng.choice([None, -1])))
+                ctx.count('same_line_trailing_comment')
+            elif rng.random() < 0.3:
                 s = '# ::id %d ::x y\n' % p['i'] + s + '\n\n' + s
             elif rng.random() < 0.4:
                 s = '\n'.join(S.comment_line(rng) for _ in range(rng.randrange(1, 4))) + '\n' + s
